@@ -219,10 +219,12 @@ class SyncedList(SyncedCollection, MutableSequence):
         return reversed(self._data)
 
     def __iadd__(self, iterable):
-        # Convert input to a list so that iterators work as well as iterables.
-        iterable_data = list(iterable)
-        self._validate(iterable_data)
         with self._load_and_save, self._suspend_sync:
+            # Convert input to a list so that iterators work as well as
+            # iterables. This must happen under the lock: the input may be a
+            # synced collection that other threads modify.
+            iterable_data = list(iterable)
+            self._validate(iterable_data)
             self._data += [
                 self._from_base(data=value, parent=self) for value in iterable_data
             ]
@@ -239,10 +241,12 @@ class SyncedList(SyncedCollection, MutableSequence):
             self._data.append(self._from_base(data=item, parent=self))
 
     def extend(self, iterable):  # noqa: D102
-        # Convert iterable to a list to ensure generators are exhausted only once
-        iterable_data = list(iterable)
-        self._validate(iterable_data)
         with self._load_and_save, self._suspend_sync:
+            # Convert iterable to a list to ensure generators are exhausted
+            # only once. This must happen under the lock: the input may be a
+            # synced collection that other threads modify.
+            iterable_data = list(iterable)
+            self._validate(iterable_data)
             self._data.extend(
                 [self._from_base(data=value, parent=self) for value in iterable_data]
             )
